@@ -18,7 +18,7 @@ import (
 var rec = vh.NewRecorder("C16", "close-propagation",
 	"histories of 1-20 bridged connections through the tcp-bridge-frontend/-backend binaries, each with a closer (client or server), byte "+
 		"counts in both directions (0..200000), a close mode {clean: the closer has read everything sent to it and the far side is quiescent, "+
-		"then writes its data and closes at once; dirty: the closer closes while the far side is still writing towards it; both: both ends "+
+		"then writes its data and closes at once; dirty: the closer closes while the far side is still writing towards it; dirty-quiet: the closer closes with unread input (so its close is a reset) while the far side stays silent; both: both ends "+
 		"close at nearly the same time} and start offsets; oracle: the far peer observes end-of-stream (EOF or reset) within 5 s of the "+
 		"close, for clean closes after reading exactly the bytes sent before it, and the file-descriptor count of both bridge processes "+
 		"returns to its baseline once all endpoints are closed (nothing outlives both endpoints); non-trivial = a clean close preceded by "+
@@ -28,7 +28,7 @@ func TestMain(m *testing.M) { vh.Main(m, rec) }
 
 type Conn struct {
 	Closer  string `json:"closer"` // client | server
-	Mode    string `json:"mode"`   // clean | dirty | both
+	Mode    string `json:"mode"`   // clean | dirty | dirty-quiet | both
 	ToFar   int    `json:"closer_to_far_bytes"`
 	ToClose int    `json:"far_to_closer_bytes"`
 	StartMs int    `json:"start_ms"`
@@ -44,7 +44,7 @@ func genCase(t *rapid.T) Case {
 	for i := 0; i < n; i++ {
 		c.Conns = append(c.Conns, Conn{
 			Closer:  rapid.SampledFrom([]string{"client", "server"}).Draw(t, "closer"),
-			Mode:    rapid.SampledFrom([]string{"clean", "clean", "clean", "dirty", "both"}).Draw(t, "mode"),
+			Mode:    rapid.SampledFrom([]string{"clean", "clean", "clean", "dirty", "dirty-quiet", "both"}).Draw(t, "mode"),
 			ToFar:   rapid.SampledFrom([]int{0, 1, 100, 1024, 1025, 50000, 200000}).Draw(t, "toFar"),
 			ToClose: rapid.SampledFrom([]int{0, 1, 100, 1024, 50000}).Draw(t, "toCloser"),
 			StartMs: rapid.SampledFrom([]int{0, 0, 1, 5, 20}).Draw(t, "start"),
@@ -241,6 +241,22 @@ func runConn(r *rig, i int, cn Conn) (err error, timedOut bool) {
 		if !ended {
 			return fmt.Errorf("connection %d: %s closed (dirty close); the other peer saw no end-of-stream within %v", i, cn.Closer, eosBound), true
 		}
+	case "dirty-quiet":
+		// the far side has sent something the closer never reads (so its close goes out as a reset) and then stays silent
+		unread := toCloser
+		if len(unread) == 0 {
+			unread = []byte("x")
+		}
+		if _, e := far.Write(unread); e != nil {
+			return fmt.Errorf("connection %d: write failed: %v", i, e), false
+		}
+		time.Sleep(30 * time.Millisecond) // let the bytes reach the closer's socket
+		closer.Write(toFar)
+		closer.Close()
+		_, ended, _ := readUntilEOS(far, eosBound)
+		if !ended {
+			return fmt.Errorf("connection %d: %s closed with %d unread bytes pending (its close is a reset) and the silent other peer saw no end-of-stream within %v", i, cn.Closer, len(unread), eosBound), true
+		}
 	case "both":
 		closer.Write(toFar)
 		far.Write(toCloser)
@@ -259,7 +275,7 @@ func runCase(t vh.TB, c *Case) vh.Outcome {
 	for i := range c.Conns {
 		i := i
 		cn := c.Conns[i]
-		if (cn.Mode == "clean" && cn.ToFar > 0 && cn.ToClose > 0) || cn.Mode == "dirty" {
+		if (cn.Mode == "clean" && cn.ToFar > 0 && cn.ToClose > 0) || cn.Mode == "dirty" || cn.Mode == "dirty-quiet" {
 			o.NonTrivial = true
 		}
 		o.Classes = append(o.Classes, cn.Mode+"-close-by-"+cn.Closer)
